@@ -9,7 +9,7 @@
 using namespace QHttpEngine;
 
 namespace {
-struct Flags { bool openSrc, openDst, seek, read, write; qint64 cap = 0; bool buffering = false; };      // cap: the source hands out at most cap bytes per read call
+struct Flags { bool openSrc, openDst, seek, read, write; qint64 cap = 0; bool buffering = false; bool sizeless = false; };      // cap: the source hands out at most cap bytes per read call
 
 class RecDst : public QIODevice
 {
@@ -41,6 +41,9 @@ public:
     RandSrc(QByteArray *content, const Flags &f) : QBuffer(content), mF(f) {}
     bool open(OpenMode mode) override { if (mF.openSrc) return false; return QBuffer::open(mode); }
     bool seek(qint64 pos) override { if (mF.seek) return false; return QBuffer::seek(pos); }
+    // a pseudo file (procfs style): it reports no size and nothing available, and still delivers its content when read
+    qint64 size() const override { return mF.sizeless ? 0 : QBuffer::size(); }
+    qint64 bytesAvailable() const override { return mF.sizeless ? 0 : QBuffer::bytesAvailable(); }
 protected:
     qint64 readData(char *data, qint64 len) override
     {
@@ -84,6 +87,7 @@ static Val run_copier(const Val &c)
             c.at(5).at(3).asInt() != 0, c.at(5).at(4).asInt() != 0};
     if (c.at(5).size() > 5) f.cap = c.at(5).at(5).asInt();
     if (c.at(5).size() > 6) f.buffering = c.at(5).at(6).asInt() != 0;
+    if (c.at(5).size() > 7) f.sizeless = c.at(5).at(7).asInt() != 0;
     RecDst dst(&log, f);
     RandSrc rnd(&content, f);
     SeqSrc sq(f);
